@@ -46,11 +46,32 @@ def scenarios(tier):
     return sc
 
 
+def scenarios_ranks(tier):
+    """shutdown across ranks: node barrier, termination and GVT control messages between ranks, delivery deviations"""
+    dl = 600 if tier == "quick" else 1500
+    B = 40000
+    sc = [hc.scen("r2x1_pred", T(2, [2, 1], [2, 1, 2], P=0, K=3, H=6), T=1, ck=2, p=1, d=1, j=4, deadline=dl, budget=B),
+          hc.scen("r2x2_pred", T(4, [2, 1, 2, 1], [2, 1, 2], P=0, K=2, H=3), T=2, ck=2, p=1, d=0, j=4, deadline=dl, budget=B),
+          hc.scen("r2x1_stop", T(2, [2, 1], [2, 1, 2], P=4, K=0, H=8, S=3), T=1, ck=2, p=1, d=1, j=4, deadline=dl, budget=B)]
+    if tier != "quick":
+        sc += [hc.scen("r2x2_pred_d1", T(4, [2, 1, 2, 1], [2, 1, 2], P=0, K=2, H=3), T=2, ck=2, p=1, d=1, j=16, deadline=2400, budget=B),
+               hc.scen("r2x1_pred_d2", T(2, [2, 1], [2, 1, 2], P=0, K=3, H=6), T=1, ck=2, p=1, d=2, j=8, deadline=dl, budget=B),
+               hc.scen("r2x2_stop", T(4, [2, 1, 2, 1], [2, 1, 2], P=4, K=0, H=5, S=2), T=2, ck=2, p=1, d=1, j=16, deadline=2400, budget=B),
+               hc.scen("r2x1_time", T(2, [1, 2], [2, 1, 7], P=4, K=0, H=6), T=1, ck=2, tt=3, p=2, d=1, j=8, deadline=dl, budget=B)]
+    return sc
+
+
 def run(tier, seed):
     t0 = time.time()
     d = vc.fresh_dir(PID)
-    binary = hc.build(d)
+    import os
+    binary = hc.build(os.path.join(d, "r1"))
     reps, m, viol = vc.rsched_scenarios(PID, "h_run", binary, scenarios(tier), d, workers=6)
+    b2 = hc.build(os.path.join(d, "r2"), ranks=2)
+    reps2, m2, viol2 = vc.rsched_scenarios(PID, "h_run2", b2, scenarios_ranks(tier), d, workers=4)
+    reps += reps2
+    viol += viol2
+    m = vc.merge_rsched(reps)
     for k in ("ended_by_predicate", "ended_by_time", "ended_by_stop"):
         if hc.counters_nz(m, k) == 0:
             raise vc.EngineError(f"vacuous: no execution '{k}'")
@@ -67,11 +88,12 @@ def run(tier, seed):
     vc.write_evidence(PID, tier, "model_checking", cov,
                       ["liveness is decided as 'terminates under the fair default continuation after <= p non-default decisions within the "
                        "step budget'; unbounded unfair schedules are out of scope",
-                       "one rank here; distributed shutdown (node barrier, control messages between ranks) in C02"],
+                       "<= 2 ranks x 2 threads for the distributed shutdown (node barrier, control messages between ranks)"],
                       time.time() - t0, n, seed)
     return 1 if n else 0
 
 
 def replay(path):
     d = vc.fresh_dir(PID + "_replay")
-    return vc.rsched_replay(hc.build(d), path)
+    ranks = 2 if "h_run2" in path or "r2x" in path else 1
+    return vc.rsched_replay(hc.build(d, ranks=ranks), path)
